@@ -40,6 +40,10 @@ CLAIMS = {
     text='partial: Lean 4 theorems over the transition system of the interrupt handler, the accept loop poll and reactor wakes on CATCH/WAKER (no_lost_wakeup for every reachable state under every interleaving; the lost wake-up of the unrepaired code as a machine-checked witness) and over the WaitGroup counter (howl_waits: each poll is Ready iff no session is alive, for every history and completion order); tied to the code through hook H4 by forcing the real handler body at every scheduling point of every poll of the real until_interrupt future on the real atomics, and by running the real WaitGroup on generated histories',
     note=TB + 'cannot be exhibited by the model and not verified: OS signal delivery, the ctrlc thread, executor fairness, interleavings finer than handler-atomic on the real atomics, TCP accept',
     technique='Lean 4 proof (reachable-state invariant by kernel-evaluated closure + induction over wait-group histories) + forced interleavings on the real atomics'),
+ 'C19': dict(
+    text='partial: Lean 4 theorems nothing_else (with only static routes registered, a request reaches a handler only if its normalised path is exactly one of the derived routes: no traversal, encoded or doubled separator, near miss) and derive_all_static (every route Dir derives is static), on top of the routing refinement of C01; the route derivation (index.html double registration, omit_extensions, alphabet and extension refusals) is a Lean model tied to the code by a regenerated mime table and a differential run on real temporary directories served by the real Route::Dir, judged against the served set read off the file list with an independent media-type table; symlink-to-outside cases run against the real code',
+    note=TB + 'cannot be exhibited by the model and not verified: read_dir / canonicalize / symlink behaviour of Dir::new (the walk is an input), file reading',
+    technique='Lean 4 proof (corollary of the routing refinement for static route tables) + model/implementation correspondence on real directories'),
  'C20': dict(
     text='Lean 4 theorems for every timestamp <= 9999-12-31T23:59:59 and every usize (imf_fixdate_exact, itoa_exact, hexized_exact) about definitions TRANSLATED from time.rs / num.rs on every run; differential run of the real functions against the model and against an independent calendar over every 7th day (quick) or every day number (thorough)',
     note=TB + 'the rendering sequence of into_imf_fixdate is a hand model (validated on every day number in the thorough tier)',
